@@ -91,6 +91,16 @@ class Universe:
         self.effects[int(EffectId.online)] = dict(cat=int(EC.online),  # eos customisation forces this category
                                                  
                                                   chance=None, resist=None, mods=self.gen_mods(int(EC.online), 1))
+        if r.random() < 0.4:
+            # the fitting effect itself adjusts a fitting resource of its own item: the resource attribute
+            # is recalculated on the very message that starts the resource use
+            self_tgt = r.choice(lp)
+            if self.attrs[self_tgt]['default'] is None:
+                self.attrs[self_tgt]['default'] = r.choice([Fraction(0), Fraction(5)])
+            self.effects[int(EffectId.online)]['mods'] = [
+                dict(filter=int(F.item), extra=None, domain=int(D.self), tgt=self_tgt,
+                     op=int(r.choice([OP.mod_add, OP.mod_add, OP.post_mul, OP.pre_assign])), agg=int(AG.stack),
+                     key=None, src=r.choice(self.base_attrs))]
         for be in BUFF_EFFECTS:
             self.effects[int(be)] = dict(cat=int(EC.active), chance=None, resist=None,
                                          mods=self.gen_mods(int(EC.active), r.randint(0, 1)))
